@@ -68,6 +68,7 @@ class Cfg:
         self.call_bias = 0  # extra percentage of statements that are calls
         self.tail_call_bias = 0  # percentage of functions that end in a statement call
         self.multiline = True
+        self.multiline_pct = 12
         self.nested_defs = False  # nested function definitions: open finding F-D36 (register clash)
         self.d5_args = False  # pass bare names of writable globals as arguments (open finding F-D5 shape):
         #                       only for oracles that do not compare with the source interpreter
@@ -141,7 +142,7 @@ class ProgGen:
         k = self.n(0, 99)
         if k < 40:
             op = self.choice(["+", "-", "*", "+", "-"])
-            if self.cfg.multiline and self.chance(12):
+            if self.cfg.multiline and self.chance(self.cfg.multiline_pct):
                 # a statement spanning several lines (continuation inside the parentheses)
                 self.features.add("multi-line-expression")
                 return f"({self.expr(vars_, d + 1)} {op}\n            {self.expr(vars_, d + 1)})"
